@@ -321,6 +321,20 @@ func init() {
 		Gen:  func(t *rapid.T) *Case { return GenCase(t, p31) },
 		Rule: "clients Add unique values to two shared merge keys (byte concatenation: associative, not commutative) and Get them, while the operators' own ticker-driven compaction (10 ms-1 s), flushes and real LSM compactions are scheduled actors; Get must equal the concatenation, in commit order, of a prefix of the Adds that contains every Add completed before the Get began, ErrKeyNotFound only before the first Add. non-trivial = a Get checked against >=2 Adds",
 	})
+	// C36 managed mode
+	p36 := profT("M-C36")
+	p36.Managed = true
+	p36.Compaction = true
+	p36.WIter = 0
+	p36.WGet = 8
+	p36.WDiscardTs, p36.WMBatch = 3, 3
+	p36.MaxOps = 30
+	p36.MaxKeys = 6
+	p36.Groups = [][]string{nil, {"client", "compactor", "flusher", "subcompact", "builder", "txn"}}
+	register(&Scenario{Prop: "C36", Family: "M", Level: "exploration", Profile: p36, NonTrivialProbe: "managed_read_checked",
+		Gen:  func(t *rapid.T) *Case { return GenCase(t, p36) },
+		Rule: "managed-mode DB with real compactors: clients open transactions at arbitrary read timestamps (1-90), commit with arbitrary non-monotonic CommitAt timestamps (kept distinct and above the current discard timestamp), write through NewManagedWriteBatch (SetEntryAt/DeleteAt with per-entry versions) and NewWriteBatchAt, and raise SetDiscardTs; every Get at a read timestamp >= the discard timestamp must return the newest write at or below it among acknowledged commits (a commit still in flight may or may not be visible), with Item.Version() equal to the caller's timestamp; at quiescence all keys are re-read at 7 timestamps from the discard timestamp upward. non-trivial = run with >=1 checked read that found a value",
+	})
 	// C04 own writes
 	p4 := profT("T-C04")
 	p4.WIter = 5
